@@ -238,13 +238,14 @@ def gen_scenario(t, max_jobs=10, with_recovery=True):
             run = t.draw(4, f"j{j}.a{a}.running") > 0     # goes RUNNING before its terminal status
             if last:
                 term = ("COMPLETED", "COMPLETED", "FAILED", "CANCELLED")[t.draw(4, f"j{j}.a{a}.term")]
-                path.append({"running": run, "term": term, "dup": t.draw(3, "dup") == 2, "recover": False, "dup_running": t.draw(4, "dup.running") == 3})
+                path.append({"running": run, "term": term, "dup": t.draw(3, "dup") == 2, "recover": False, "dup_running": t.draw(4, "dup.running") == 3,
+                             "dup_fireable": t.draw(5, "dup.fireable") == 4})
             else:
                 path.append({"running": run, "term": ("FAILED", None)[t.draw(2, "viaFailed")], "dup": t.draw(3, "dup") == 2, "recover": True, "dup_running": t.draw(4, "dup.running") == 3,
                              "direct_rollback": t.draw(4, "direct.rollback") == 3,
                              # a recovery that takes long (building and running the recovery workflow): the job stays in RECOVERY,
                              # with its resources released, until the controller lets it go on at a quiescent point
-                             "recovery_hold": t.draw(3, "recovery.hold") == 2})
+                             "recovery_hold": t.draw(3, "recovery.hold") == 2, "dup_fireable": t.draw(5, "dup.fireable") == 4})
         jobs.append({"name": f"/s{j % 3}/0.{j}", "targets": targets, "req": req, "path": path,
                      # measured usage of the job's directories never exceeds what the job declared
                      # (a job writing more than it declared makes reserved+measured exceed the capacity
@@ -441,6 +442,11 @@ class Scenario:
             hw = sched.get_hardware(name)
             hw.storage["__outdir__"].paths = {f"{wd}/{base}/out"}
             hw.storage["__tmpdir__"].paths = {f"{wd}/{base}/tmp"}
+            if step.get("dup_fireable"):
+                # a repeated notification of the status the job already has right after the grant
+                sim.probe("duplicate_fireable_notification")
+                await sim.io("fireable2", name)
+                await sched.notify_status(name, Status.FIREABLE)
             if step["running"]:
                 await sim.io("start", name)
                 await sched.notify_status(name, Status.RUNNING)
